@@ -172,6 +172,10 @@ func (t *table) openRowStore(opts *rowStoreOptions) (*rowStore, common.OffsetsBy
 		forceFlushes:         make(chan bool),
 		forceFlushCompletes:  make(chan bool),
 		iterationsInProgress: make(map[string]int),
+		// The flush count isn't persisted. Start such that the first flush after
+		// opening is a truncating one, otherwise a process that is restarted
+		// before its 10th flush never truncates old data.
+		flushCount: 9,
 		fileStore: &fileStore{
 			t:        t,
 			fields:   fields,
